@@ -463,6 +463,8 @@ def _gen_op(r, work, cfg, git, reverse, touched):
         op = Op("truncate", p, pre=data, post=b"", pre_mode=mode, post_mode=mode)
         op.style = "git" if git else "samename"
         op.ctx = 0
+        if not git and cfg.allow_orig and r.random() < 0.3 and (p + ".orig") not in work:
+            op.orig_style = True   # '--- a/p.orig' / '+++ b/p' around a hunk that removes every line
         work[p] = (b"", mode)
     elif kind == "fill":
         # a creation-style patch onto a file that exists with zero length (accepted, as by GNU patch)
